@@ -23,3 +23,23 @@ Example C07_vp9_example : (* last packet of a 2-packet key frame lost, then an i
              (enc_many 14 10 5 [[130; 73; 131; 66; 0; 39; 240; 29; 240; 1; 2; 3]; [134; 9; 8]])
   = Some [DMore; DFrame [134; 9; 8]].
 Proof. vm_compute. reflexivity. Qed.
+
+(* ---- the translated kernels (tools/go2coq, spec.d/vp9.txt) ----
+   d.fragmentsSize == 0, d.fragmentNextSeqNum = pkt.SequenceNumber + 1, pkt.SequenceNumber != d.fragmentNextSeqNum,
+   d.fragmentNextSeqNum++ ARE the tests / updates of Model.dec. *)
+From Coq Require Import ZArith.
+From GVG Require Import Kern.
+From GV_vp9 Require Import BridgeLib Bridge.
+Open Scope Z_scope.
+Theorem C07_vp9_kernels_are_the_code : forall (seq next fs : N), u16 seq -> u16 next ->
+  k_vp9_dec_nofrag (Z.of_N fs) = (fs =? 0)%N /\
+  k_vp9_dec_nextseq (Z.of_N seq) = Z.of_N (seq_next seq) /\
+  k_vp9_dec_gap (Z.of_N seq) (Z.of_N next) = negb (seq =? next)%N /\
+  k_vp9_dec_incseq (Z.of_N next) = Z.of_N (seq_next next).
+Proof. exact resync_kernels_are_the_code. Qed.
+Print Assumptions C07_vp9_kernels_are_the_code.
+
+Example C07_vp9_example_kernels :
+  k_vp9_dec_nextseq 65535 = 0 /\ k_vp9_dec_incseq 9 = 10 /\ k_vp9_dec_gap 10 10 = false /\ k_vp9_dec_gap 11 10 = true /\
+  k_vp9_dec_nofrag 0 = true.
+Proof. vm_compute. repeat split. Qed.
